@@ -396,15 +396,33 @@ class World:
                 # is told.  The declaration itself has been recorded by then; an empty re-declaration (nothing new,
                 # everything recomputed and everybody told again) must leave exactly what the history declared.
                 dep = RaisingDependent()
-                implementedBy(c).subscribe(dep)
+                # ... sometimes it is subscribed to the specification of a subclass D(c) instead: the news has reached D
+                # itself when the dependent refuses it, so a super proxy of a D instance (rest of the MRO: c and above,
+                # all up to date) must show the new declaration even before anything is healed
+                below = [ob for ob in self.objs if type(ob).__bases__ == (c,) and not hasattr(ob, '__provides__')]
+                target, proxy_of = c, None
+                if below and ifs and rng.random() < 0.6:
+                    proxy_of = rng.choice(below)
+                    target = type(proxy_of)
+                    providedBy(super(target, proxy_of))          # the synthesized specification is cached now
+                implementedBy(target).subscribe(dep)
                 try:
                     classImplements(c, *ifs)
                     raised = False
                 except DependentFault:
                     raised = True
-                implementedBy(c).unsubscribe(dep)
+                implementedBy(target).unsubscribe(dep)
                 if raised:
                     ctx.count('declarations_interrupted_by_a_raising_dependent')
+                    if proxy_of is not None:
+                        ctx.ev()
+                        ctx.count('super_queries_right_after_an_interrupted_declaration')
+                        seen = set(providedBy(super(target, proxy_of)).flattened())
+                        lost = [i for i in ifs if i not in seen]
+                        if lost:
+                            ctx.violation('super-misses-declaration-after-interrupted-propagation',
+                                          {'obj': proxy_of.zname, 'thisclass': target.__name__, 'declared_on': c.__name__,
+                                           'missing': nm(lost)})
                 classImplements(c)
             else:
                 classImplements(c, *ifs)
